@@ -7,3 +7,7 @@ package reader
 //@ func (*Reader) PageCount results (n, err)
 //@   property C10, C02
 //@   ensures nonneg: !err ==> n >= 0
+
+// Reference graphs in a PDF are cyclic (/Parent <-> /Kids): the deep walk needs a recursion measure.
+//@ func (*Reader) ResolveDeep results (out, err)
+//@   property C02
